@@ -32,7 +32,7 @@ Local Notation Sub_band_r := (Sub_band_r nc nx ny M).
 Theorem rabin_action_refines zk yki xkijr :
   Sub obm (rabin_action nc nx ny H G E S holds goals moore plus_one zk yki xkijr).
 Proof.
-  unfold rabin_action. cbv zeta.
+  unfold rabin_action, rabin_action_k. cbv beta zeta.
   (* rho_1 *)
   match goal with |- context [fold_left ?f (tl zk) ?a] =>
     assert (H1 : Sub obm (fst (fold_left f (tl zk) a))) end.
@@ -74,7 +74,7 @@ Proof.
   assert (H0 : Sub obm (band (bor (bor (bor rho_1 rho_2) rho_3) rho_4) lim)).
   { apply Sub_band_l. repeat apply Sub_bor; assumption. }
   set (u0 := band _ lim) in *.
-  destruct plus_one eqn:Ep; [exact H0|].
+  destruct plus_one eqn:Ep; cbn [negb]; [exact H0|].
   destruct moore eqn:Em.
   - intros v. rewrite forall_spec. cbn [forall_raw dom].
     unfold oblig_mode. apply forallb_mono. intros x' Hx'.
